@@ -130,6 +130,20 @@ def t_generators():
     return first + second + third + total + last + sum(gen(7))     # 0+1+4+14+5+20 = 44
 
 
+def t_itertools():
+    import itertools
+    c = itertools.count(10)
+    pairs = list(zip(c, 'abc'))
+    after = next(c)
+    head = list(itertools.islice(endless(), 4))
+    it2 = iter([5, 6, 7])
+    first = next(it2)
+    rest = [v for v in it2]
+    q, r = divmod(7, 2)
+    total = operator.methodcaller('count', 6)([6, 6, 1])
+    return pairs[2][0] + after + sum(head) + first + len(rest) + q + r + total        # 12 + 14 + 14 + 5 + 2 + 3 + 1 + 2 = 53 (zip asks the counter once more before the string runs out)
+
+
 def t_sets_dicts():
     s = set()
     s.add(3)
@@ -158,7 +172,7 @@ def t_getters():
     return first((8, 9)) + wid(Box(1, 4))              # 8 + 3 = 11
 '''
 
-EXPECT = {'t_namedtuple': 27, 't_subclass': 34, 't_partial': 42, 't_reduce': 63, 't_generators': 44, 't_sets_dicts': 74, 't_classes': 34, 't_getters': 11, 't_property_objects': 67}
+EXPECT = {'t_namedtuple': 27, 't_subclass': 34, 't_partial': 42, 't_reduce': 63, 't_generators': 44, 't_sets_dicts': 74, 't_classes': 34, 't_getters': 11, 't_property_objects': 67, 't_itertools': 53}
 
 
 def main(db):
